@@ -62,6 +62,11 @@ def run(ctx):
     for i in range(-140, 140): lines.append("GQ %d %d" % (i, r.choice([0, 2])))
     for _ in range(400): lines.append("GQ %d %d" % (r.below(2 ** 17) - 2 ** 16, r.choice([0, 2, 2, 0, 1])))
     for i in (2 ** 31, -2 ** 31, 2 ** 62, -2 ** 62, 32767, -32767): lines.append("GQ %d 0" % i)
+    # identifiers that equal a documented one only in their low 32 bits (a qos_class_t is an unsigned int; the argument is a long)
+    for i in DOC_IDS:
+        for k in (1, 2, -1, 2 ** 31 - 1, -(2 ** 31)):
+            v = i + k * 2 ** 32
+            if -2 ** 63 <= v < 2 ** 63: lines.append("GQ %d %d" % (v, r.choice([0, 0, 2])))
     # hierarchies
     nh = 4000 if ctx.thorough else 500
     nsa = 0
